@@ -57,6 +57,21 @@ func main() {
 			fmt.Println("FATAL", err)
 			os.Exit(2)
 		}
+		if *dump == "errs" {
+			c := &Ctx{P: p, R: newReport("dump", "quick", 0)}
+			for _, fn := range c.moduleFuncs() {
+				for _, s := range errorDroppedSites(c, fn) {
+					fmt.Printf("%-16s %-60s %s  [%s]\n", s.Kind, p.pos(s.Instr.Pos()), s.Desc, s.Key)
+				}
+				for _, s := range errorSwallowedSites(c, fn) {
+					fmt.Printf("%-16s %-60s %s  [%s]\n", s.Kind, p.pos(s.Instr.Pos()), s.Desc, s.Key)
+				}
+				for _, s := range recoverLostSites(c, fn) {
+					fmt.Printf("%-16s %-60s %s  [%s]\n", s.Kind, p.pos(s.Instr.Pos()), s.Desc, s.Key)
+				}
+			}
+			return
+		}
 		dumpTables(p, *dump)
 		return
 	}
